@@ -350,6 +350,64 @@ def int_cells(inp, out, qi, max_bracket=48):
     return cells
 
 
+def kernel_imin(nb, st):
+    """the i_min the kernel used (not an output): -offset / bin_scale; None when not recoverable"""
+    scale = recover_scale(nb, st)
+    if scale is None:
+        return None, None
+    return (-(st['off'] // scale) if st['off'] > 0 else 0), scale
+
+
+SHIFT_STATS = {'exact': 0, 'bracket': 0, 'undecided': 0}
+
+
+def shift_case(inp, out, qi):
+    """brackets of z_min and z_max (extreme median-centred similarities over all query columns) recomputed
+    from the PWM entries; the median of a column is taken from the kernel (medians[i] - i_min)"""
+    st = out['stage'][qi]
+    imk, scale = kernel_imin(inp['nb'], st)
+    if imk is None:
+        return None
+    zl = zh = Zl = Zh = None
+    exact = True
+    for i, qc in enumerate(out['Qv'][qi]):
+        Mi = Fraction(st['med'][i])
+        m = Mi - imk
+        m_exact = Mi.denominator <= 2 ** 30
+        slack = Fraction(0) if m_exact else Fraction(1, 10 ** 13)
+        qf = [Fraction(a) for a in qc]
+        q_dy = all(_dyadic(a) for a in qc)
+        for tc in out['Tu']:
+            d2 = sum((a - Fraction(b)) ** 2 for a, b in zip(qf, tc))
+            lo_s, hi_s, sq = _sqrt_bracket(d2)
+            if sq and q_dy and m_exact and all(_dyadic(b) for b in tc) and _is_rep(-lo_s - m):
+                lo = hi = -lo_s - m
+            else:
+                exact = False
+                if d2 == 0:
+                    dg = Fraction(5, 10 ** 8)
+                elif d2 < Fraction(1, 10 ** 8):
+                    dg = Fraction(1, 10 ** 3)
+                else:
+                    dg = Fraction(1, 10 ** 14) / (2 * lo_s) + Fraction(1, 10 ** 14)
+                lo, hi = -hi_s - dg - m - slack, -lo_s + dg - m + slack
+            zl = lo if zl is None else min(zl, lo)
+            zh = hi if zh is None else min(zh, hi)
+            Zl = lo if Zl is None else max(Zl, lo)
+            Zh = hi if Zh is None else max(Zh, hi)
+    a = math.floor(zl)
+    decided = a == math.floor(zh) and Zl - a > 0 and \
+        math.floor(Fraction(inp['nb']) / (Zh - a)) == math.floor(Fraction(inp['nb']) / (Zl - a))
+    if not decided:
+        SHIFT_STATS['undecided'] += 1
+        return None
+    SHIFT_STATS['exact' if zl == zh and Zl == Zh else 'bracket'] += 1
+    zl, Zl = _short(zl, True), _short(Zl, True)
+    zh, Zh = _short(zh, False), _short(Zh, False)
+    q = lambda fr: '(%s # %d)%%Q' % (C.z(fr.numerator), fr.denominator)
+    return '(KShift %d %s %s %s %s %d)' % (inp['nb'], q(zl), q(zh), q(Zl), q(Zh), st['off'])
+
+
 def _short(fr, down):
     """round a rational outward to denominator 10^24 (keeps the bracket rigorous)"""
     S = 10 ** 24
@@ -393,6 +451,9 @@ def coq_case(inp, out):
             parts += mono_cases(inp, out, qi)
         if inp.get('intcheck', True):
             k = int_case(inp, out, qi)
+            if k:
+                parts.append(k)
+            k = shift_case(inp, out, qi)
             if k:
                 parts.append(k)
         # targets that are the query itself: best score at offset 0 with full overlap
@@ -617,6 +678,51 @@ def gen_forms(rng):
     return inp
 
 
+def integer_distance_pairs():
+    """pairs of grid columns at Euclidean distance exactly 1 (the only non-zero integer distance on the
+    grid {0,1/4,1/2,1}: d2 ranges over multiples of 1/16 up to 2)"""
+    out = []
+    for a_ in COARSE:
+        for b_ in COARSE:
+            if sum((Fraction(x) - Fraction(y)) ** 2 for x, y in zip(a_, b_)) == 1:
+                out.append((a_, b_))
+    return out
+
+
+INT_PAIRS = integer_distance_pairs()
+
+
+def gen_intz(rng):
+    """z_min (the smallest median-centred similarity) exactly an integer: more than half of the pooled target
+    columns equal the query column c (its median similarity is exactly 0) and another pooled column d lies at
+    distance exactly 1 (z_min = -1.0); or more than half of the pool at distance 1 and the rest equal
+    (median = minimum for every query column, z_min = 0.0 when all query columns are c)"""
+    rc = rng.random() < 0.4
+    pairs = [p_ for p_ in INT_PAIRS if not rc or (p_[0] == p_[0][::-1] and p_[1] == p_[1][::-1])]
+    c, d = rng.choice(pairs)
+    near = [x for x in COARSE if 0 < sum((Fraction(a_) - Fraction(b_)) ** 2 for a_, b_ in zip(c, x)) < 1
+            and (not rc or x == x[::-1])]
+    kind = rng.choice(['minus1', 'minus1', 'minus1', 'zero'])
+    if kind == 'minus1':
+        n_c = rng.randint(6, 12)
+        pool = [c] * n_c + [d] * rng.randint(1, 2) + [rng.choice(near) for _ in range(rng.randint(0, min(3, n_c - 4)))]
+        qcols = [c] * rng.randint(1, 3) + ([rng.choice(near)] if near and rng.random() < 0.5 else [])
+    else:
+        n_d = rng.randint(6, 10)
+        pool = [d] * n_d + [c] * rng.randint(1, n_d // 2 - 1)
+        qcols = [c] * rng.randint(1, 3)
+    rng.shuffle(pool)
+    rng.shuffle(qcols)
+    T = []
+    while pool:
+        k = rng.randint(1, 5)
+        T.append([list(x) for x in pool[:k]])
+        pool = pool[k:]
+    return {'kind': 'tomtom', 'Q': [[list(x) for x in qcols]], 'T': T,
+            'nb': rng.choice([10, 20, 53, 100, 150, rng.randint(5, 200)]), 'rc': rc,
+            'ntb': 100 if rng.random() < 0.4 else None, 'coarse': True, 'opt': 'intz', 'mono': False}
+
+
 def gen_zero(rng):
     """single-column query with some integerised similarity equal to 0 (found by calling the kernel)"""
     rs = np_rng(rng)
@@ -653,6 +759,8 @@ def generate(tier, rng):
     light, heavy = [], []
     for _ in range(n_coarse):
         light.append(gen_coarse(rng))
+    for _ in range(8 if quick else 40):
+        light.append(gen_intz(rng))
     for _ in range(8 if quick else 50):
         light.append(gen_forms(rng))
     seqs = []
